@@ -26,7 +26,7 @@ theorem forestRoots_ok {env : Env} (hT : TableOk env) {g : Gss} (hg : GInv env g
   obtain ⟨h, hh, e, he, hn⟩ := hn
   obtain ⟨ed, hed, hsrc⟩ := mem_backedges.mp he
   rw [possOf_eq hed] at hn
-  obtain ⟨hda, a, hhda, hact⟩ := hacc h hh
+  obtain ⟨hda, tka, hhda, _, hact⟩ := hacc h hh
   obtain ⟨au, hau, pr, hpr, hrhs, hitem⟩ := hT.s.accept_item _ _ hact
   obtain ⟨hs, hd, hhs, hhd, htr, _⟩ := (hg.edges e ed hed).ends
   rw [hsrc, hhda] at hhs; injection hhs with hhs; subst hhs
